@@ -9,7 +9,10 @@ CONSTANTS
   MaxClock = @@MAXCLOCK@@
   MaxHist = @@MAXHIST@@
   Shapes = {"jsonString"}
+  Mode = "@@MODE@@"
+  LifecycleFirst = @@LF@@
   Emit = TRUE
+  Only = "@@ONLY@@"
 INIT Init
 NEXT Next
 VIEW genview
